@@ -1,3 +1,4 @@
+import BasicModel.Gen.Limits
 import BasicModel.Model.Func
 import BasicModel.Spec.StrSpec
 /-
@@ -203,6 +204,10 @@ example : Func.instr [.int 5, .str "abcdeb".toList, .str "b".toList] = .ok (.int
 example : Func.instr [.int (-1), .str "abc".toList, .str "b".toList] = err Code.illegalFunctionCall := by decide
 example : Func.left (.str "abc".toList) (.int (-1)) = err Code.overflow := by decide
 example : Func.spc (.int 256) = err Code.overflow := by decide
+
+/-- the 255-character limits re-extracted from var.rs, parse.rs and function.rs; `Gen/Limits.lean` is regenerated from /repo/src on every run, so editing one of these
+    constants in the Rust source breaks this obligation -/
+theorem generated_limits_documented : Gen.stringMaxLen = 255 ∧ Gen.literalMaxLen = 255 ∧ Gen.spcMax = 255 ∧ Gen.stringFnMax = 255 := by decide
 
 end Thm.C07
 end Basic
